@@ -73,6 +73,8 @@ pub struct World {
     pub activity: std::rc::Rc<std::cell::Cell<u64>>,
     /// largest step of virtual time taken by advance_to between two drains of sockets and command queue
     pub max_step: Duration,
+    /// commands taken from the manager's queue inside a poll and not yet handled
+    pending: VecDeque<PeerCmd>,
     next_peer: usize,
 }
 
@@ -90,6 +92,7 @@ impl World {
             watchdog: None,
             activity: std::rc::Rc::new(std::cell::Cell::new(0)),
             max_step: Duration::from_secs(5),
+            pending: VecDeque::new(),
             next_peer: 0,
         }
     }
@@ -322,24 +325,53 @@ impl World {
         completed
     }
 
-    /// Poll the handlers together with `fut` until `fut` completes. Returns (output, some handler completed).
-    async fn pump<T>(&mut self, fut: impl Future<Output = T>) -> (T, bool) {
-        let mut fut = Box::pin(fut);
+    /// Poll the handlers together with `fut` until `fut` completes or a connection task has sent the manager a
+    /// command (returns None then: the manager must answer at once, as the concurrently running manager task would).
+    /// Returns (output if completed, some handler completed).
+    async fn pump<T>(&mut self, fut: &mut Pin<Box<impl Future<Output = T>>>) -> (Option<T>, bool) {
         let mut completed = false;
         let out = std::future::poll_fn(|cx| {
             if self.poll_handlers(cx) {
                 completed = true;
             }
-            fut.as_mut().poll(cx)
+            while let Some(cmd) = self.session.verif_try_recv_peer_cmd() {
+                self.pending.push_back(cmd);
+            }
+            if !self.pending.is_empty() {
+                return Poll::Ready(None);
+            }
+            match fut.as_mut().poll(cx) {
+                Poll::Ready(v) => Poll::Ready(Some(v)),
+                Poll::Pending => Poll::Pending,
+            }
         })
         .await;
         (out, completed)
     }
 
+    /// Sleep until `deadline` (virtual), polling handlers and answering manager commands the moment they are sent.
+    /// Returns (some handler completed, some command was handled).
+    async fn pump_until(&mut self, deadline: Instant) -> (bool, bool) {
+        let mut completed = false;
+        let mut cmds = false;
+        loop {
+            let mut s = Box::pin(tokio::time::sleep_until(deadline));
+            let (out, c) = self.pump(&mut s).await;
+            completed |= c;
+            if self.drain_cmds().await {
+                cmds = true;
+            }
+            if out.is_some() || self.manager_dead.is_some() {
+                break;
+            }
+        }
+        (completed, cmds)
+    }
+
     async fn drain_cmds(&mut self) -> bool {
         let mut any = false;
         while self.manager_dead.is_none() {
-            let cmd = match self.session.verif_try_recv_peer_cmd() {
+            let cmd = match self.pending.pop_front().or_else(|| self.session.verif_try_recv_peer_cmd()) {
                 Some(c) => c,
                 None => break,
             };
@@ -404,18 +436,14 @@ impl World {
     async fn round(&mut self) -> bool {
         let act0 = self.activity.get();
         let mut active = self.flush_out();
-        let ((), completed) = self.pump_sleep(Duration::from_millis(1)).await;
-        active |= completed;
+        let deadline = Instant::now() + Duration::from_millis(1);
+        let (completed, cmds) = self.pump_until(deadline).await;
+        active |= completed | cmds;
         active |= self.drain_sockets();
         active |= self.drain_cmds().await;
         active |= self.flush_out();
         active |= self.activity.get() != act0;
         active
-    }
-
-    async fn pump_sleep(&mut self, d: Duration) -> ((), bool) {
-        let s = tokio::time::sleep(d);
-        self.pump(s).await
     }
 
     /// Quiescence barrier: returns when three consecutive rounds saw no activity.
@@ -448,8 +476,7 @@ impl World {
             }
             let step = std::cmp::min(t - now, self.max_step);
             let deadline = Instant::now() + step;
-            let s = tokio::time::sleep_until(deadline);
-            let _ = self.pump(s).await;
+            let _ = self.pump_until(deadline).await;
             self.drain_sockets();
             self.drain_cmds().await;
             self.flush_out();
